@@ -11,6 +11,7 @@ import (
 	"fmt"
 	"path/filepath"
 	"sort"
+	"sync/atomic"
 	"time"
 
 	"github.com/nuetzliches/hookaido/internal/queue"
@@ -43,7 +44,7 @@ type Handle struct {
 	ro      *sql.DB
 }
 
-var storeSeq int64
+var storeSeq atomic.Int64
 
 func OpenStore(backend string, cfg StoreCfg, clock *VClock, dir string) (*Handle, error) {
 	h := &Handle{Backend: backend, Cfg: cfg, Clock: clock}
@@ -61,8 +62,7 @@ func OpenStore(backend string, cfg StoreCfg, clock *VClock, dir string) (*Handle
 		}
 		h.Store = queue.NewMemoryStore(opts...)
 	case "sqlite":
-		storeSeq++
-		h.Path = filepath.Join(dir, fmt.Sprintf("q%d.db", storeSeq))
+		h.Path = filepath.Join(dir, fmt.Sprintf("q%d.db", storeSeq.Add(1)))
 		if err := h.openSQLite(); err != nil {
 			return nil, err
 		}
